@@ -621,7 +621,13 @@ pub fn check_c13(case: &Case, st: &mut Stats) -> Verdict {
                 }
                 let s = &full[..full.len() - cut];
                 let want = decode::trailer_valid(s);
-                let env = crate::env::Env::new(c.env.clone());
+              // the source may stand anywhere when it is handed over: byte 0, inside the trailer, at
+              // the end or past it (a reader recovered with into_inner and wrapped again)
+              let hs = crate::rng::mix(h, cut as u64);
+              for start in [c.env.src_start, -(1 + (hs % 26) as i64), s.len() as i64 + (hs >> 8) as i64 % 9] {
+                let mut plan0 = c.env.clone();
+                plan0.src_start = start;
+                let env = crate::env::Env::new(plan0.clone());
                 let mut tx = crate::exec::Tx::new(env.clone());
                 let bytes = s.to_vec();
                 crate::exec::guarded(&mut tx, |tx| {
@@ -636,16 +642,15 @@ pub fn check_c13(case: &Case, st: &mut Stats) -> Verdict {
                     _ => false,
                 };
                 if !ok {
-                    let mut plan = c.env.clone();
-                    plan.faults.clear();
                     return Some((
                         Violation::new(
                             "C13",
                             "open-through-short-reads",
                             format!(
-                                "a {}-byte string that {} in a complete trailer, opened through a source serving short/interrupted reads: {}",
+                                "a {}-byte string that {} in a complete trailer, opened through a source serving short/interrupted reads and standing at {} before the call: {}",
                                 s.len(),
                                 if want { "ends" } else { "does not end" },
+                                start,
                                 got.map(|g| g.short()).unwrap_or_default()
                             ),
                         ),
@@ -653,6 +658,10 @@ pub fn check_c13(case: &Case, st: &mut Stats) -> Verdict {
                     ));
                 }
                 st.c.inc("open.through_simulated_source");
+                if start != 0 {
+                    st.c.inc("open.source_not_at_byte_0");
+                }
+              }
             }
             // every short suffix of the finished file (a trailer that lost bytes at its front)
             for l in 0..=full.len().min(30) {
